@@ -57,6 +57,8 @@ def cases(tier, seed):
         for a in range(0, n, 30):
             out.append(("batch", depth, ctxs, a, min(n, a + 30), tier))
     out.append(("seeds",))
+    out.append(("typed", False))
+    out.append(("typed", True))
     return out
 
 
@@ -213,6 +215,22 @@ def run_case(case):
     if case[0] == "one":
         _, label, term, dicts = case
         res["failures"] = check_term(label, term, dicts, res)
+        return res
+    if case[0] == "typed":
+        # values that compare equal in Python but are different JSON values (1 / True, 0 / False, "1"):
+        # reported keys with such values must get different fingerprints, whatever was fingerprinted first
+        typed = [1, True, 0, False, "1", None, 2, "True"]
+        if case[1]:
+            typed = list(reversed(typed))
+        terms = [("typed:opt", ("opt", "A")), ("typed:list", ("list", [("opt", "A"), ("opt", "S.X", ("val", 0))])),
+                 ("typed:ds", ("ds", "td", {"params": [("opt", "A")]})), ("typed:cached", ("cached", ("apply", ("opt", "A"), ("fn", "f")), "c")),
+                 ("typed:section", ("opt", "S"))]
+        for label, term in terms:
+            if label == "typed:section":
+                dicts = [{"S": {"X": v}} for v in typed]
+            else:
+                dicts = [{"A": v} for v in typed] + [{"A": v, "S": {"X": w}} for v in typed[:3] for w in typed[:3]]
+            res["failures"].extend(check_term(label + (":reversed" if case[1] else ""), term, dicts, res))
         return res
     if case[0] == "seeds":
         base, n, multi = seed_digest()
